@@ -207,7 +207,10 @@ def _decode_builtin_double(buffer: _Buffer, type: DoubleType) -> float:
 
 def _decode_str(buffer: _Buffer, type: StringType) -> str:
     len = _decode_builtin_unsigned(buffer, UnsignedType("u32"))
-    return bytearray(buffer.read_bytes(len)).decode("ascii")
+    chars = []
+    for i in range(len):
+        chars.append(buffer.read_word(8))
+    return bytearray(chars).decode("ascii")
 
 
 def _decode_array(buffer: _Buffer, fcp: FcpV2, type: ArrayType) -> List[Any]:
